@@ -138,3 +138,15 @@ def getter(ctx, F, owner_prefix, gname, kind, row, crate, num_of_variant, rule="
               inst.get("span", ""), how="return term %s; ID = %s" % (G.show(rt)[:80], idv and idv.get("variant")),
               why="return term %s; ID = %s" % (G.show(rt)[:160], idv and idv.get("val_s")))
     return inst
+
+
+_T2_SFX = "<impl core::convert::From<multiboot2::tag_type::TagType> for u32>::from"
+_T1_SFX = "<impl core::convert::From<u32> for multiboot2::tag_type::TagType>::from"
+
+
+def conv_key(F, which):
+    """instance key of `u32::from(TagType)` ('t2') / `TagType::from(u32)` ('t1'), found by what it implements - the module
+    the impl lives in is not part of its identity"""
+    sfx = _T2_SFX if which == "t2" else _T1_SFX
+    ks = [k for k in F.insts if k.endswith(sfx) and k.startswith("multiboot2::tag_type::")]
+    return ks[0] if len(ks) == 1 else "multiboot2::tag_type::primitive_conversion_impls::" + sfx
